@@ -210,6 +210,16 @@ func levelsGen(r *rand.Rand, n int, small bool) []Case {
 			low = r.Intn(maxTs + 2)
 		}
 		bsz := []int{1, 1, 5, 20, 60, 200}[r.Intn(6)]
+		if c%6 == 4 {
+			// long user keys that share a prefix of 255 / 256 / 300+ bytes, in blocks large enough to hold several of them
+			// (shared-prefix lengths and key lengths beyond one byte)
+			p := strings.Repeat("p", []int{254, 255, 256, 257, 300, 700}[r.Intn(6)])
+			users = append([]string{p + "a", p + "b", p}, users...)
+			if len(users) > 5 {
+				users = users[:5]
+			}
+			bsz = []int{2000, 4096, 100000}[r.Intn(3)]
+		}
 		ops := []string{fmt.Sprintf("lm %d %d %d %d", 1+r.Intn(4), 1+r.Intn(3), bsz, low)}
 		tags := map[string]bool{}
 		if bsz == 1 {
